@@ -10,7 +10,8 @@ Oracles  : s = FortranWriter()(tree), tree being the rhs of an Assignment;
            `gfortran -std=f2008` inside a typed wrapper (batched);
   reread : FortranReader().psyir_from_expression(s, table) == tree (PSyIR
            ==, modulo the two things the frontend cannot represent: signed
-           literals, SINGLE vs UNDEFINED real precision);
+           literals, SINGLE vs UNDEFINED real precision; real literal
+           values are compared by value+precision, not by spelling);
   value  : the value gfortran computes for s equals the value of the tree
            computed by an own exact evaluator (vlib/c02_eval.py) on every
            valuation (of 6) on which the tree is defined and exact.  The
@@ -20,7 +21,6 @@ Oracles  : s = FortranWriter()(tree), tree being the rhs of an Assignment;
 """
 from __future__ import annotations
 
-import os
 
 from vlib import c02_eval as E
 from vlib import gen_expr as G
@@ -52,6 +52,9 @@ ASSUMPTIONS = [
     "REAL literals of precision SINGLE and UNDEFINED are identified when "
     "comparing with the re-read tree (both are default real; the frontend "
     "returns SINGLE for literals with an exponent and UNDEFINED otherwise)",
+    "REAL literal values are compared numerically (canonical mantissa/"
+    "exponent spelling) together with their precision, because a correct "
+    "writer may have to re-spell a value to express its type",
     "a signed Literal ('-1') is expected to be re-read as the unary "
     "operator applied to the unsigned Literal (the frontend never produces "
     "signed literals)",
@@ -147,16 +150,19 @@ class Checker:
 
     # ---- in-process part -------------------------------------------------
     def _normalise(self, tree):
-        """SINGLE -> UNDEFINED for REAL literals of a (detached) tree."""
+        """REAL literals of a (detached) re-read tree: SINGLE -> UNDEFINED
+        and the canonical spelling of the value (see expected_reread)."""
         from psyclone.psyir.nodes import Literal
         from psyclone.psyir.symbols import ScalarType
         for lit in tree.walk(Literal):
             dtype = lit.datatype
             if isinstance(dtype, ScalarType) and \
-                    dtype.intrinsic == ScalarType.Intrinsic.REAL and \
-                    dtype.precision == ScalarType.Precision.SINGLE:
-                new = Literal(lit.value, ScalarType(
-                    dtype.intrinsic, ScalarType.Precision.UNDEFINED))
+                    dtype.intrinsic == ScalarType.Intrinsic.REAL:
+                prec = dtype.precision
+                if prec == ScalarType.Precision.SINGLE:
+                    prec = ScalarType.Precision.UNDEFINED
+                new = Literal(G.canon_real(lit.value),
+                              ScalarType(dtype.intrinsic, prec))
                 if lit is tree:
                     return new
                 lit.replace_with(new)
